@@ -100,6 +100,34 @@ def check_bodies(tier, k, n, res):
                         check_src(src, {'src': src, 'body': True}, 'body', 'pair-gap-comment', res)
 
 
+# every spelling a comment can take, for the 'kinds' family (the 'hdr' family keeps four of them short so that
+# sequences of 4-5 items stay enumerable)
+COMMENT_KINDS = [b'-- c', b'// c', b'--[[c]]', b'--[[c\nd]]', b'--[=[c]=]', b'--[==[c\nd]==]', b'--[=[a]]b]=]',
+                 b'--[==[a]=]b\n]]c]==]', b'-- c \t', b'--c]]', b'//c--d', b'--', b'//', b'--[', b'--[=', b'--\x80\xff']
+KIND_SEPS = [b'\n', b' ', b'\r\n', b'']
+
+
+def kinds_cases():
+    """(source, tag): every ordered pair of comment spellings x separator, optionally a third (ordinary) comment, then
+    code on the same / next line or nothing. Only sources the reference lexer accepts and in which the first two
+    comments end where the separator starts (a line comment followed by '' or ' ' swallows the next item: those
+    combinations simply give a different, still valid, header and are kept)."""
+    for a in COMMENT_KINDS:
+        for b in COMMENT_KINDS:
+            for s1 in KIND_SEPS:
+                for third in (None, b'-- z', b'--[[z]]'):
+                    for fol in (b'', b'x=1\n', b'\nx=1 -- t\n'):
+                        src = a + s1 + b + (b'\n' + third if third else b'') + fol
+                        yield src
+
+
+def check_kinds(k, n, res):
+    for i, src in enumerate(kinds_cases()):
+        if i % n != k:
+            continue
+        check_src(src, {'src': src, 'kinds': True}, 'kinds', 'kinds', res)
+
+
 def check_src(src, case, shape, follower, res):
     lua = c01.lua_mod()
     res.evaluations += 1
@@ -246,7 +274,7 @@ def shards(tier, seed):
     step = (total + n - 1) // n
     nb = 8 if tier == 'quick' else 16
     return ([('hdr', tier, lo, min(total, lo + step)) for lo in range(0, total, step)] + [('cli',)] +
-            [('bodies', tier, k, nb) for k in range(nb)])
+            [('bodies', tier, k, nb) for k in range(nb)] + [('kinds', k, 8) for k in range(8)])
 
 
 FOLLOWERS = ['nothing', 'same-line', 'next-line']
@@ -257,6 +285,10 @@ def run_shard(item):
     if item[0] == 'cli':
         cli_batch(res)
         res.sample({'cli': 'p8tool luamin on .p8 and .p8.png carts with 9 header shapes'})
+        return res
+    if item[0] == 'kinds':
+        check_kinds(item[1], item[2], res)
+        res.sample({'kinds': 'pairs of comment spellings incl. levelled long comments', 'example': b'--[=[a]]b]=]\n// c\nx=1\n'})
         return res
     if item[0] == 'bodies':
         check_bodies(item[1], item[2], item[3], res)
@@ -280,6 +312,9 @@ def replay(case):
     res = ShardResult()
     if case.get('cli'):
         cli_batch(res)
+        return [(s, v[0]) for s, v in res.violations.items()]
+    if case.get('kinds'):
+        check_src(case['src'], case, 'kinds', 'kinds', res)
         return [(s, v[0]) for s, v in res.violations.items()]
     if case.get('body'):
         check_src(case['src'], case, 'body', 'pair-gap-comment', res)
